@@ -27,6 +27,9 @@ FACTORIES = {
     'List': ('text', 'List'), 'ListItem': ('text', 'ListItem'), 'A': ('text', 'A'),
     'Style': ('style', 'Style'), 'TextProperties': ('style', 'TextProperties'),
     'DrawA': ('draw', 'A'), 'TextTitle': ('text', 'Title'), 'DcTitle': ('dc', 'Title'),
+    # elements the grammar lets hold neither children nor text: as PARENTS (appendChild / insertBefore / unchecked adds do not ask
+    # the grammar) they must still have a child list of their own (seeded change C08-r6m1: one shared empty list)
+    'LineBreak': ('text', 'LineBreak'), 'S': ('text', 'S'), 'Tab': ('text', 'Tab'),
 }
 FACTORY_ORDER = sorted(FACTORIES)
 
